@@ -29,8 +29,8 @@ def oracle(s, r):
         for j in range(nt):
             line[idx[i, j]] = i if i < C else 1000 + j
     same = line[:, None] == line[None, :]
-    for strat in ("give", "take"):
-        A = ol.dense(r["A_%s11" % strat])
+    for strat in sorted(k[2:] for k in r if k.startswith("A_") and not k.endswith("_affdev")):
+        A = ol.dense(r["A_" + strat])
         AII = A[np.ix_(free, free)]
         scI = sc[free]
         # symmetry: for ALL pairs
@@ -58,6 +58,8 @@ def oracle(s, r):
                           % (strat, w.min()), {}))
     # stored line matrices (read before their first solve)
     names = [k for k in r if k.startswith("Asc_") and not k.endswith("_innerCSRrows")]
+    if len(names) < 10:
+        viols.append(("missing-variants", "expected 5 smoother variants x 2 thread counts, got %d" % len(names), {}))
     for nm in sorted(names):
         strat = "give" if "give" in nm else "take"
         A = ol.dense(r["A_%s11" % strat])
@@ -98,7 +100,7 @@ def cases_for(tier):
     if tier == "thorough":
         return ol.lattice([5, 7, 8, 9, 11, 13, 17], [4, 8, 12, 16, 20, 24, 32], "geo,A11,S,Scache,linesonly", tier,
                           need_nt4=True, cycle_offsets=(0, 1, 2), threads_cycle=(1,))
-    return ol.lattice([5, 6, 7, 8, 9, 11], [4, 8, 12, 16], "geo,A11,S,Scache,linesonly", tier, need_nt4=True)
+    return ol.lattice([5, 6, 7, 8, 9, 11], [4, 8, 12, 16], "geo,A11,S,Scache,linesonly", tier, need_nt4=True, extra={"tlist": "1,3"})
 
 
 def main(tier):
